@@ -152,6 +152,14 @@ def mkProject (name unit : String) (keys : List (List Nat)) (dep : List Nat → 
 def f_project := mkProject "project" "project" [[0],[1]] k0
 def f_project_cfg := mkProject "project_cfg" "project_cfg" cfgs fun k => k0 k / 2
 
+
+/-! `unProject(project(p)) = p` for every projection matrix of the perspective shape (entries `a, b` on the diagonal,
+    `c, d` in the depth row, `e` the w-row coefficient of z; all symbolic), identity model matrix and symbolic viewport,
+    under both depth conventions.  Side condition: no division by zero in the evaluation (`a b d e ≠ 0`, `vp.z vp.w ≠ 0`,
+    the two perspective divides). -/
+def f_unprojP : Family :=
+  { name := "unprojP", kind := .frac, divFree := true, keys := [[0],[1]], nOut := fun _ => 3, spec := fun _ j => v j }
+
 def families : List Family :=
   [f_ortho, f_frustum, f_perspective, f_perspectiveFov, f_infinitePerspective,
    f_ortho_cfg, f_frustum_cfg, f_perspective_cfg, f_perspectiveFov_cfg, f_infinitePerspective_cfg,
@@ -159,6 +167,6 @@ def families : List Family :=
    f_frustumLH_cfg, f_frustumRH_cfg, f_frustumNO_cfg, f_frustumZO_cfg,
    f_perspectiveLH_cfg, f_perspectiveRH_cfg, f_perspectiveNO_cfg, f_perspectiveZO_cfg,
    f_perspectiveFovLH_cfg, f_perspectiveFovRH_cfg, f_perspectiveFovNO_cfg, f_perspectiveFovZO_cfg,
-   f_ortho2d, f_project, f_project_cfg]
+   f_ortho2d, f_project, f_project_cfg, f_unprojP]
 
 end Glm.Spec.C08
